@@ -98,6 +98,15 @@ func (d *Pegnetd) GetPegNetRateAverages(ctx context.Context, height uint32) (Avg
 	return averages // Return the rates we found.
 }
 
+// RateAveragesAt computes the averages for the given height from the database
+// only. It neither reads nor writes the cache that GetPegNetRateAverages keeps
+// for block sync, so API handlers running concurrently with DBlockSync can call
+// it without touching state the sync routine depends on.
+func (d *Pegnetd) RateAveragesAt(ctx context.Context, height uint32) map[fat2.PTicker]uint64 {
+	reader := &Pegnetd{Pegnet: d.Pegnet}
+	return reader.GetPegNetRateAverages(ctx, height).(map[fat2.PTicker]uint64)
+}
+
 func numberMissing(dataset []uint64) (numZeros uint64) {
 	for _, v := range dataset {
 		if v == 0 {
